@@ -277,7 +277,7 @@ int c09_run(const char *tier) {
 	ex_spec_t g = { .harness = "c09.groups", .ncases = 29 * 2, .gen = groups_gen, .label = "c09.groups" };
 	ex_map(&g);
 	uint8_t param[1] = {0}; const char *d = getenv("VERIF_DEPTH");
-	e2_spec_t s = { .harness = "c09.hist", .param = param, .nparam = 1, .nevents = H_N, .max_depth = d ? atoi(d) : (thorough ? 8 : 5), .label = "c09.hist", .evname = hevname };
+	e2_spec_t s = { .harness = "c09.hist", .param = param, .nparam = 1, .nevents = H_N, .max_depth = d ? atoi(d) : (thorough ? 8 : 5), .label = "c09.hist", .evname = hevname, .audit = thorough };
 	e2_explore(&s);
 	/* concurrent commands (harness shared with C10/H6): the messages and the optimistic state after two commands issued by
 	 * two threads equal those of one of the two sequential orders — "other functions of the group preserved" must survive a
